@@ -185,6 +185,9 @@ func mustStore(fn *ssa.Function, fk string) (ssa.Value, bool) {
 	for _, st := range storesIn(fn, fk) {
 		all := true
 		for _, b := range fn.Blocks {
+			if b == fn.Recover {
+				continue // the synthetic recover block of functions with defers
+			}
 			for _, ins := range b.Instrs {
 				if _, ok := ins.(*ssa.Return); ok {
 					if !(st.Block() == b || st.Block().Dominates(b)) {
